@@ -27,7 +27,7 @@ var Hosts = []string{
 var DomainValues = []string{
 	"a.com", "b.a.com", "a.org", "a.co.uk", "evil.org", "google.com", "google.co.uk", "google.*", "a.*",
 	"xgoogle.*", "ads.net", "example.com", "example.org", "sub.example.org", "tracker.io",
-	"www.ck", "kawasaki.jp", "city.kawasaki.jp", "co.uk", "com", "localhost", "example.*",
+	"www.ck", "kawasaki.jp", "city.kawasaki.jp", "co.uk", "com", "localhost", "example.*", "www.google.*", "b.a.*", "ads.example.*",
 }
 
 // DenyAllowValues are values for $denyallow (no wildcard: the statement does
